@@ -26,6 +26,7 @@ import (
 	"crypto/elliptic"
 	"errors"
 	"fmt"
+	"math/big"
 
 	"github.com/btcsuite/btcd/btcec"
 	"github.com/kardiachain/go-kardia/lib/common"
@@ -46,6 +47,11 @@ func Ecrecover(hash, sig []byte) ([]byte, error) {
 func SigToPub(hash, sig []byte) (*ecdsa.PublicKey, error) {
 	if len(sig) != 65 {
 		return nil, errors.New("invalid signature length")
+	}
+	// r and s must be in [1, N-1]: the recovery below inverts r modulo N and dereferences the (nil) result for r = N.
+	r, s := new(big.Int).SetBytes(sig[:32]), new(big.Int).SetBytes(sig[32:64])
+	if r.Sign() == 0 || s.Sign() == 0 || r.Cmp(secp256k1N) >= 0 || s.Cmp(secp256k1N) >= 0 {
+		return nil, errors.New("invalid signature values")
 	}
 	// Convert to btcec input format with 'recovery id' v at the beginning.
 	btcsig := make([]byte, 65)
